@@ -2,7 +2,7 @@
 from vf import h
 
 META = {
-    'explanation': 'C11.a: validation-entry checksum and boot-info-table checksum kernels decided on bit-vectors (E2).',
+    'explanation': 'C11.a: validation-entry checksum and boot-info-table checksum kernels decided on bit-vectors (E2).  C11.b: the boot record, validation/initial/section entries and catalog names decoded from the bytes of the real write_fp with symbolic boot-file lengths, with hidden boot files and rm_eltorito (CrossHair).',
     'assumptions': ['checksum loop body depends on the position only through its parity; messages longer than the stated n are outside the E2 bound',
                     'boot-info checksum: struct.unpack_from("<L") given its bit-vector meaning; one 2048-byte sector of symbolic words'],
 }
@@ -25,6 +25,22 @@ def obligations(tier):
         obs.append({'name': 'C11.a/boot_info_csum_len%d' % dl, 'engine': 'py', 'module': K, 'func': 'boot_info_csum_len', 'params': {'data_len': dl}, 'cond_timeout': 900,
                     'bounds': 'boot file of exactly %d bytes; the 32-bit words at block starts/ends, around offset 64 and at the tail symbolic, the rest zero' % dl,
                     'functions': ['PyCdlib._calculate_eltorito_boot_info_table_csum'], 'stubs': ['struct.unpack_from("<L") as word select', 'block-reading file model']})
+    from vf import skel
+    cfgs = [skel.cfg_of(3, None, None, False, False), skel.cfg_of(3, 3, '1.09', False, False), skel.cfg_of(3, None, None, True, False),
+            skel.cfg_of(3, 3, '1.09', True, False)]
+    if tier != 'quick':
+        cfgs = skel.pairwise_cfgs()
+    for c in cfgs:
+        for v in ('plain', 'hidden', 'removed', 'hidden_removed'):
+            obs.append({'name': 'C11.b/elt_layout_%s/%s' % (v, skel.cfg_name(c)), 'engine': 'chx', 'module': 'vf.props.C11_h', 'func': 'elt_layout',
+                        'params': {'cfg': c, 'variant': v}, 'cond_timeout': 1500, 'path_timeout': 300,
+                        'bounds': 'boot file and EFI image lengths in [1, 33552384], a third file in [0, 0x3ffff800]; variant %s; config %s; '
+                                  'one BIOS initial entry (load size 4) + one EFI section entry (default load size); floppy/HD emulation and more '
+                                  'sections are outside this obligation' % (v, skel.cfg_name(c)),
+                        'functions': ['PyCdlib.add_eltorito', 'PyCdlib.rm_eltorito', 'PyCdlib.rm_hard_link', 'PyCdlib._reshuffle_extents', 'PyCdlib.write_fp',
+                                      'EltoritoBootCatalog.record', 'EltoritoEntry.record', 'EltoritoValidationEntry.record', 'BootRecord.record'],
+                        'samples': [(3000, 5, 7000), (1, 2048, 0)],
+                        'stubs': ['M_struct', 'M_out', 'M_image', 'file data modelled as length-only Span objects', 'UDF CRC/checksum constant under the solver']})
     if tier != 'quick':
         obs.append({'name': 'C11.a/validation_checksum_16', 'engine': 'py', 'module': K, 'func': 'eltorito_checksum', 'params': {'n': 16}, 'cond_timeout': 3000,
                     'bounds': 'all messages of 16 bytes', 'functions': ['EltoritoValidationEntry._checksum']})
